@@ -16,12 +16,16 @@ import (
 var c12Alphabet = DefaultAlphabetWith(
 	[][]kwOpt{{{"format", "date"}, {"format", "date-time"}, {"format", "byte"}, {"format", "int32"}, {"format", "nosuchformat"}}},
 	[]kwOpt{{"pattern", "["}, {"required", []any{"a", "a"}}, {"required", []any{"a", "b", "a"}}},
-).withAppls([]applForm{{"properties", "propA-ro"}, {"properties", "propA-wo"}, {"properties", "propAB-ro"}})
+).withAppls([]applForm{{"properties", "propA-ro"}, {"properties", "propA-wo"}, {"properties", "propAB-ro"}, {"properties", "propEsc"}})
 
 func c12Values(size int) []any {
 	vs := ValueSet(size)
 	vs = append(vs, "2020-01-02", "2020-13-02", "2020-01-02T03:04:05Z", "!!", 4294967296.0, -4294967296.0,
 		map[string]any{"a": "2020-01-02"}, []any{"2020-13-02"}, []any{4294967296.0, "a"})
+	// a property whose name needs escaping in a JSON pointer (RFC 6901: "/" is "~1", "~" is "~0")
+	for _, v := range []any{nil, true, 1.0, 1.5, "a", "ab"} {
+		vs = append(vs, map[string]any{"s/l~t": v})
+	}
 	return vs
 }
 
